@@ -229,6 +229,11 @@ def run(ctx):
             size *= x
         import numpy as _np
         import xarray as _xr
+        if len(plans) % 3 == 1 and 'plain ArakawaC' not in d.spec['label']:
+            # surface dimensions carrying index coordinates with unsorted labels (row / station numbers): a cell is found by
+            # position, whatever the labels say
+            d.ds = gen.label_dimensions(rng, d.ds, fd)
+            ctx.count('surface dimensions with unsorted labels')
         d.ds['cell_tag'] = _xr.DataArray(_np.arange(size, dtype='i8').reshape(fshape), dims=fd)
         ems = d.ds.ems
         polys = pm.impl_polygons(ems)
